@@ -42,6 +42,7 @@ type Cfg struct {
 	RegW     bool     `json:"regw"` // server configured with an AEAD registration wrapper
 	CertKeys []string `json:"certKeys"`
 	Unix     bool     `json:"unix"`    // listen on a unix socket instead of tcp
+	LState   bool     `json:"lstate"`  // the listener's own Options carry WithState (legitimate: they feed the fetch function)
 	Nide     bool     `json:"nide"`    // node-id lookups that find nothing answer with an empty set instead of not-found
 	LifeSec  int      `json:"lifeSec"` // root lifetime in seconds (0: library default); short lifetimes enable RotateWait
 }
@@ -182,6 +183,10 @@ func Run(bh Behaviour, seed int64) ([]Line, error) {
 			return nil, err
 		}
 		sc.ExtraOpts = append(sc.ExtraOpts, nodeenrollment.WithRegistrationWrapper(aw))
+	}
+	if bh.Cfg.LState {
+		ls, _ := structpb.NewStruct(map[string]any{"owner": "listener", "configured": true})
+		sc.ExtraOpts = append(sc.ExtraOpts, nodeenrollment.WithState(ls))
 	}
 	srv, err := hs.NewServer(sc)
 	if err != nil {
